@@ -58,7 +58,7 @@ pub fn eval(ctx: &Ctx) -> Report {
     while terms.len() < n {
         let k = *rng.pick(&[K::Int, K::Bytes, K::Bool, K::Data, K::Any, K::ListData, K::Str]);
         let depth = 1 + rng.below(5);
-        let t = tg.gen(&mut rng, k, &vec![], depth);
+        let t = if rng.chance(1, 8) { gen::closure_result(&mut rng) } else { tg.gen(&mut rng, k, &vec![], depth) };
         if rng.chance(1, 3) {
             let p: Program<NamedDeBruijn> = Program { version: (1, 1, 0), term: t.clone() };
             let bytes = guarded(AssertUnwindSafe(|| Program::<DeBruijn>::try_from(p.clone()).ok().and_then(|d| d.to_flat().ok())));
